@@ -108,7 +108,7 @@ def step(name, nin=1, target=None, doc='', kinds=None, **methods):
     combos = kinds or list(itertools.product('EL', repeat=nin))
     for combo in combos:
         cname = 'Tm_%s_%s' % (name, ''.join(combo)) if nin else 'Tm_%s' % name
-        d = dict(kinds=tuple(combo), nin=nin, target=(TMM + ':tm.' + target) if target and ':' not in target else target,
+        d = dict(kinds=tuple(combo), nin=nin, prop=methods.get('prop', 'C03'), target=(TMM + ':tm.' + target) if target and ':' not in target else target,
                  __doc__=doc or ('tm.%s preserves/establishes coherent_tm (inputs: %s)' % (target, ''.join(combo))))
         d.update(methods)
         cls = type(cname, (TmContract,), d)
@@ -192,7 +192,7 @@ def _se3(self, g):
 step('ctor_matrix', 0, 'transformSqueezedCopy', 'tm(4x4 element of SE(3)): gTM reads back the matrix', extra=_se3,
      op=lambda self, g, tmm, objs, xs: tmm.tm(xs), kinds=[()],
      functional=lambda self, g, objs, xs, res: g.eq('matrix read back = what was given', res.gTM(), xs))
-step('ctor_copy', 1, '__init__', 'tm(tm): copy constructor',
+step('ctor_copy', 1, '__init__', 'tm(tm): copy constructor', prop=('C03', 'C04'),
      op=lambda self, g, tmm, objs, xs: tmm.tm(objs[0]),
      functional=lambda self, g, objs, xs, res: (g.eq('copy has the same matrix', res.gTM(), objs[0].gTM()),
                                                g.eq('copy has the same six-vector', res.gTAA(), objs[0].gTAA())))
@@ -205,7 +205,7 @@ def _ctor_arr_of_tm(self, g, tmm, objs, xs):
     return tmm.tm(a)
 
 
-step('ctor_array_of_tm', 1, '__init__', 'tm(one-element array holding a tm)', op=_ctor_arr_of_tm,
+step('ctor_array_of_tm', 1, '__init__', 'tm(one-element array holding a tm)', op=_ctor_arr_of_tm, prop=('C03', 'C04'),
      functional=lambda self, g, objs, xs, res: g.eq('same matrix', res.gTM(), objs[0].gTM()))
 
 # ---------------------------------------------------------------------------------------------------
